@@ -131,7 +131,12 @@ pub trait MapValidVec<T: IsNone>: Vec1View<T> {
         if len == 0 {
             return O::empty();
         } else if len == 1 {
-            return O::full(len, (1.).cast());
+            // a single element has rank 1 - unless it is null, which has no rank
+            return if unsafe { self.uget(0) }.is_none() {
+                O::full(len, OT::none())
+            } else {
+                O::full(len, (1.).cast())
+            };
         }
         // argsort at first
         let mut idx_sorted: Vec<_> = (0..len).collect_trusted_to_vec();
